@@ -7,6 +7,9 @@
 (*                   is checked against every packet interleaving across channels      *)
 (*                   (C20: "all packet interleavings"), whatever the scheduler does;   *)
 (*   Sched = "prio"  the sender emits what sendPacketMsg chooses (LeastRatio).         *)
+(* Batching = "any" makes explicit what the receiver has ALREADY READ when an error      *)
+(* occurs; Injects adds the other error branches of recvRoutine (unknown channel,         *)
+(* malformed / over-long / empty packet, read error) and ping / pong.                    *)
 (* Every transition into a quiescent state (nothing left to send, wire read or         *)
 (* receiver stopped) is printed (Dump) and replayed by harness/conn TestMConnReplay:   *)
 (* Sched = "any"  -> the packets are encoded by the driver and read by a real, running *)
@@ -28,7 +31,11 @@ CONSTANTS Lens,      \* message lengths
                      \* the receiver is then checked against every fragmentation, too (only with Sched = "any")
           EagerRecv, \* TRUE: a packet is read as soon as it is on the wire (the receiver is sequential, so this
                      \* loses no wire order and no receiver behaviour; it only removes redundant interleavings)
-          Unknown    \* TRUE: a packet on an unknown channel may appear once
+          Batching,  \* "each": every packet is flushed on its own;  "any": TLC chooses where the sender flushes, i.e. which
+                     \* packets arrive TOGETHER in the receiver's read buffer -- in particular the packet that crosses the
+                     \* capacity (or any other packet that stops the connection) in front of small EOF packets of the
+                     \* same and of other channels
+          Injects    \* kinds of foreign packets (MConn!InjectKinds) of which one may appear in the stream
 
 VARIABLES m, nt, nu, hist
 vars == <<m, nt, nu, hist>>
@@ -36,8 +43,9 @@ vars == <<m, nt, nu, hist>>
 Init == m = Empty /\ nt = 0 /\ nu = 0 /\ hist = <<>>
 
 Step(r, a) == m' = r.st /\ hist' = Append(hist, a)
-Running    == m.rstop = ""
-MustRecv   == EagerRecv /\ m.wire # <<>> /\ Running
+MustRecv   == EagerRecv /\ CanRecv(m)
+\* with Batching = "each" a packet is flushed in the step that produces it
+Out(x)     == IF Batching = "each" THEN FlushOp(x) ELSE x
 
 DoSend == \E c \in Ch, n \in Lens :
             /\ ~MustRecv /\ m.nid <= MaxMsgs
@@ -47,22 +55,26 @@ DoPkt  == \E c \in Ch :
             /\ ~MustRecv /\ Pending(m, c) /\ (Sched = "prio" => c = LeastRatio(m))
             /\ IF Frag = "max"
                THEN LET r == SendPacketOp(m, c) IN
-                    Step(r, <<"pkt", c, r.res[2], IF r.res[1] THEN "eof" ELSE "more", r.st.wire[Len(r.st.wire)].id>>)
+                    /\ m' = Out(r.st)
+                    /\ hist' = Append(hist, <<"pkt", c, r.res[2], IF r.res[1] THEN "eof" ELSE "more", LastPacket(r.st).id>>)
                ELSE \E n \in 0..MaxPayload, eof \in BOOLEAN :
                     /\ CanPacket(m, c, eof, n) /\ (n > 0 \/ eof)
                     /\ LET x == SendPacketGen(m, c, eof, n) IN
-                       /\ m' = x
-                       /\ hist' = Append(hist, <<"pkt", c, n, IF eof THEN "eof" ELSE "more", x.wire[Len(x.wire)].id>>)
+                       /\ m' = Out(x)
+                       /\ hist' = Append(hist, <<"pkt", c, n, IF eof THEN "eof" ELSE "more", LastPacket(x).id>>)
             /\ UNCHANGED <<nt, nu>>
+DoFlush == /\ ~MustRecv /\ Batching = "any" /\ m.obuf # <<>>
+           /\ m' = FlushOp(m) /\ hist' = Append(hist, <<"flush", 0, 0, "", 0>>) /\ UNCHANGED <<nt, nu>>
 DoTick == /\ ~MustRecv /\ Sched = "prio" /\ nt < MaxTicks /\ \E c \in Ch : m.recent[c] > 0
           /\ m' = UpdateStatsOp(m) /\ hist' = Append(hist, <<"tick", 0, 0, "", 0>>) /\ nt' = nt + 1 /\ UNCHANGED nu
-DoUnknown == /\ ~MustRecv /\ Unknown /\ nu = 0
-             /\ m' = UnknownChannelOp(m) /\ hist' = Append(hist, <<"unknown", 0, 1, "eof", 0>>) /\ nu' = 1 /\ UNCHANGED nt
-DoRecv == /\ m.wire # <<>> /\ Running
-          /\ LET r == RecvPacketOp(m) IN Step(r, <<"recv", Head(m.wire).c, Head(m.wire).len, r.res, Head(m.wire).id>>)
+DoInject == \E k \in Injects :
+             /\ ~MustRecv /\ nu = 0
+             /\ m' = Out(InjectOp(m, k)) /\ hist' = Append(hist, <<"inj", 0, 1, k, 0>>) /\ nu' = 1 /\ UNCHANGED nt
+DoRecv == /\ CanRecv(m)
+          /\ LET r == RecvPacketOp(m)  pk == NextPacket(m) IN Step(r, <<"recv", pk.c, pk.len, r.res, pk.id>>)
           /\ UNCHANGED <<nt, nu>>
 
-Next == DoSend \/ DoPkt \/ DoTick \/ DoUnknown \/ DoRecv
+Next == DoSend \/ DoPkt \/ DoFlush \/ DoTick \/ DoInject \/ DoRecv
 Spec == Init /\ [][Next]_vars
 \* recentlySent only matters to the code's scheduler
 View == <<IF Sched = "any" THEN [m EXCEPT !.recent = [c \in Ch |-> 0]] ELSE m, nt, nu>>
@@ -73,6 +85,12 @@ Inv == /\ PerChannelFIFOExactlyOnce(m)
        /\ OversizeRefused(m)
        /\ StopsOnlyForOversize(m)
        /\ AllDelivered(m)
+       /\ NoDeliveryAfterError(m)
+       /\ DeliveredIsSent(m)
+\* with DrainAfter # {} (a bare `break` in an error branch of recvRoutine) these must be VIOLATED: checks/C20.py requires
+\* the counterexamples (a batch with the stopping packet in front of a small EOF packet)
+NoDeliveryAfterErrorInv == NoDeliveryAfterError(m)
+DeliveredIsSentInv      == DeliveredIsSent(m)
 \* with EmptyLoss = TRUE (the code before the repair) this must be VIOLATED: checks/C20.py requires the counterexample
 NoEmptyLost == ~EmptyLost(m)
 
